@@ -1,6 +1,6 @@
 (* C17 — time expressions, durations and sizes typed by users mean what they say.  Headline theorems only.
    Models: Model/TimeParse.v (byte level; int64/uint64 wraps explicit; binary64 as exactly rounded rationals). *)
-From Pyro Require Import Model.Base Model.TimeParse Proofs.TimeParseProofs.
+From Pyro Require Import Model.Base Model.TimeParse Proofs.TimeParseProofs Proofs.C17BytesizeRoundtrip.
 Local Open Scope Z_scope.
 
 (* ---------------------------------------------------------------------------------------------------------------- *)
@@ -212,13 +212,32 @@ Example bytesize_rejects_nonvacuous :
   bytesize_parse (bs "5 K B") = None /\ bytesize_parse (bs "1e3") = None /\ bytesize_parse (bs "") = None.
 Proof. vm_compute. repeat split; reflexivity. Qed.
 
-(* Full statement of the print/parse round trip (false at the top of the range, see bytesize_print_parse_refuted):
-     forall b, 1024 <= b <= max_int64 -> exists p, bytesize_parse (bytesize_print b) = Some p /\
-        |p - b| * 200 <= U + 200 + 200 * (b / 2^52)      (U = the printed unit; half a unit of the last printed digit,
-                                                          + 1 for the truncation, + two binary64 roundings)
-   It is evaluated by Corr.CorrC17.check_print on what the implementation printed and parsed back, for every generated b.
-   The %.2f formatting and strconv.ParseFloat are modelled as exact rational roundings; proving the bound for all b needs
-   an error analysis of `rne` that is not done here. *)
+(* The print/parse round trip (Proofs/C17BytesizeRoundtrip.v).  Full statement of the property: for every b >= 1 KB the
+   printed text parses back to within its printed precision.  It is false at the top of the range
+   (bytesize_print_parse_refuted below: sizes printing as "8192.00 PB").  Proved: for every b from 1 KB up to
+   2^63 - 0.005 PB - b/2^47 - 2 (the last ~66 000 sizes below the first one that prints as 8192.00 PB are not covered: the
+   coarse float slack is also needed as head room for Parse's overflow test), the text is "<I>.<dd> <U>" with U one of
+   KB..PB (m = its size), it parses, and
+       |b' - b|  <=  m/200   (half a unit of the last printed digit: the %.2f rounding)
+                   +  2      (the truncation to an integer; rounding of the bound itself)
+                   +  b/2^47 (binary64: float64(b), ParseFloat of the decimal and the product with float64(m) are each
+                              within a relative 2^-51 of their argument — the coarse bound proved for the rounding function
+                              rne of the model, which rounds to nearest even at 53 bits; 2^-53 holds but is not needed).
+   For b < 2^47 the last term is 0. *)
+Theorem bytesize_print_parse : forall b, 1024 <= b -> b + 1024 ^ 5 / 200 + b / 2 ^ 47 + 2 <= 2 ^ 63 ->
+  exists b' K m, In ([K; 66%N], m) sfx_table /\
+    (exists num, bytesize_print b = num ++ 32%N :: [K; 66%N]) /\
+    bytesize_parse (bytesize_print b) = Some b' /\
+    Z.abs (b' - b) * 200 <= m + 400 + 200 * (b / 2 ^ 47).
+Proof. exact roundtrip_lemma. Qed.
+Print Assumptions bytesize_print_parse.
+
+Example bytesize_print_parse_nonvacuous :
+  1024 <= 123456789 /\ 123456789 + 1024 ^ 5 / 200 + 123456789 / 2 ^ 47 + 2 <= 2 ^ 63 /\
+  bytesize_print 123456789 = bs "117.74 MB" /\ bytesize_parse (bs "117.74 MB") = Some 123459338 /\
+  9223366407355175957 + 1024 ^ 5 / 200 + 9223366407355175957 / 2 ^ 47 + 2 <= 2 ^ 63.
+Proof. vm_compute. repeat split; try reflexivity; discriminate. Qed.
+
 Theorem bytesize_print_parse_refuted :
   exists b, 1024 <= b <= max_int64 /\ bytesize_print b = bs "8192.00 PB" /\ bytesize_parse (bytesize_print b) = None.
 Proof. exists max_int64. vm_compute. repeat split; try reflexivity; discriminate. Qed.
